@@ -8,6 +8,7 @@ REGISTRY = {
     'C05': 'harness.c05',
     'C06': 'harness.c06',
     'C07': 'harness.c07',
+    'C08': 'harness.c08',
     'C09': 'harness.c09',
     'C10': 'harness.session',
     'C11': 'harness.fitkernel',
